@@ -415,7 +415,7 @@ def _pure(e, allow_calls=()):
     return True
 
 
-def propagate_aliases(fnode, allow_calls=('len',), only_simple=False):
+def propagate_aliases(fnode, allow_calls=('len',), only_simple=False, also_bool=False):
     """substitute locals that are bound exactly once (outside loops) to a pure expression whose inputs are
     not stored afterwards; returns a new FunctionDef and the dict of substituted names"""
     fn = clone(fnode)
@@ -442,7 +442,8 @@ def propagate_aliases(fnode, allow_calls=('len',), only_simple=False):
         if counts.get(name) != 1 or name in params:
             continue
         v = st.value
-        if only_simple and not _simple_arg(v):
+        boolish = isinstance(v, (ast.Compare, ast.BoolOp)) or (isinstance(v, ast.UnaryOp) and isinstance(v.op, ast.Not))
+        if only_simple and not _simple_arg(v) and not (also_bool and boolish):
             continue
         if not _pure(v, allow_calls):
             continue
@@ -719,5 +720,33 @@ def expand_quantifiers(fnode, module=None, limit=16):
                     return ast.copy_location(ast.BoolOp(op=ast.Or() if c.func.id == 'any' else ast.And(), values=vals), c)
             return c
     fn = Q().visit(fn)
+    ast.fix_missing_locations(fn)
+    return fn
+
+
+def ifexp_to_if(fnode):
+    """`x = A if T else B` / `return A if T else B` as if-statements (a CFG then has the two paths)"""
+    fn = clone(fnode)
+
+    def conv(body):
+        out = []
+        for st in body:
+            for fld in ('body', 'orelse', 'finalbody'):
+                if isinstance(getattr(st, fld, None), list) and not isinstance(st, (ast.FunctionDef, ast.AsyncFunctionDef, ast.ClassDef)):
+                    setattr(st, fld, conv(getattr(st, fld)))
+            for h in getattr(st, 'handlers', []) or []:
+                h.body = conv(h.body)
+            v = st.value if isinstance(st, (ast.Assign, ast.Return, ast.AnnAssign)) else None
+            if isinstance(v, ast.IfExp):
+                def mk(val, st=st):
+                    c = clone(st)
+                    c.value = val
+                    return c
+                new = ast.If(test=v.test, body=conv([mk(v.body)]), orelse=conv([mk(v.orelse)]))
+                out.append(ast.copy_location(new, st))
+            else:
+                out.append(st)
+        return out
+    fn.body = conv(fn.body)
     ast.fix_missing_locations(fn)
     return fn
